@@ -1000,7 +1000,7 @@ func isSeparator(r rune) bool {
 
 // lookupJSONSpace is used by the onlyJSONWhitespace and trimJSONSpace
 // functions.
-var lookupJSONSpace = [255]uint8{'\t': 1, '\n': 1, '\r': 1, ' ': 1}
+var lookupJSONSpace = [256]uint8{'\t': 1, '\n': 1, '\r': 1, ' ': 1}
 
 // onlyJSONWhitespace reports if s contains only JSON whitespace.
 func onlyJSONWhitespace(s string) bool {
@@ -1024,9 +1024,9 @@ func trimJSONSpace(data native.JSON) native.JSON {
 		return data
 	}
 	i, j := 0, len(data)-1
-	for ; lookupJSONSpace[data[i]] == 1; i++ {
+	for ; i <= j && lookupJSONSpace[data[i]] == 1; i++ {
 	}
-	for ; lookupJSONSpace[data[j]] == 1; j-- {
+	for ; j >= i && lookupJSONSpace[data[j]] == 1; j-- {
 	}
 	return data[i : j+1]
 }
